@@ -18,7 +18,9 @@ STRS = {"plain": "abc", "spaces": "two words  here", "dquote": 'say "hi"', "squo
         "newline": "two\nlines\tand a tab", "hash": "# not a comment", "trailbs": "ends with \\", "path": "out dir/plots, north #3 (x86) [v2].csv", "Float": "Float",
         "key": 'Display: "Name", [x]'}
 NUMS = {"int": 5, "zero": 0, "negint": -7, "bigint": 2 ** 70 + 1, "dec": 2.5, "negdec": -0.25, "smallexp": 1e-05, "bigexp": 1.5e+20, "exp22": 1e22,
-        "tenth": 0.1, "whole": 100.0, "tiny": 5e-324}
+        "tenth": 0.1, "whole": 100.0, "tiny": 5e-324,
+        # doubles whose shortest exact text needs 16-17 significant digits
+        "digits17": 0.1 + 0.2, "third": 1.0 / 3.0, "ulp16": 1e16 + 2}
 
 
 BUILTIN_PROGRAMS = [
